@@ -42,7 +42,7 @@ class RelGen:
         text = list(r['name'])
         if cfg.get('archqual') and e.choose('aq', 2):
             r['archqual'] = s.ident('q'); text += [58] + r['archqual']
-        if e.choose('ver', 2):
+        if not cfg.get('no_version') and e.choose('ver', 2):
             op = OPS[e.choose('op', 5)]; v, vk = s.version()
             r['version'] = (op, v); r['features'].append('version-' + vk)
             text += s.ws() + [40] + o(op) + s.ws() + v + [41]
